@@ -39,6 +39,8 @@ type Cell struct {
 	Opaque interface{} // intrinsic-owned payload (big.Int, bytes.Buffer shadow, ...)
 	Poison string      // non-empty: reading is UNSUPPORTED (uninitialised global)
 	ID     int
+	Up     *Cell // enclosing array cell (for unsafe.String/Slice on element pointers)
+	Idx    int
 }
 
 // PtrAlt is one guarded target of a pointer produced by symbolic indexing.
@@ -229,6 +231,7 @@ func (w *W) newCell(t types.Type) *Cell {
 		c.Kids = make([]*Cell, u.Len())
 		for i := range c.Kids {
 			c.Kids[i] = w.newCell(u.Elem())
+			c.Kids[i].Up, c.Kids[i].Idx = c, i
 		}
 	default:
 		c.V = w.zero(t)
@@ -243,6 +246,7 @@ func (w *W) newArrayCell(elem types.Type, n int) *Cell {
 	c.Kids = make([]*Cell, n)
 	for i := range c.Kids {
 		c.Kids[i] = w.newCell(elem)
+		c.Kids[i].Up, c.Kids[i].Idx = c, i
 	}
 	return c
 }
